@@ -1,12 +1,13 @@
 """C05 — algorithm results equal the documented function of their children's results."""
 from ..evt import EventPart
 from ..runner import run_check
+from ..loops import LoopPart
 
 
 def run(tier, seed, replay=None):
-    parts = [EventPart("evt", report_crashes=False)]
+    parts = [EventPart("evt", report_crashes=False), LoopPart()]
     return run_check(
-        "C05", tier, seed, ["UnifexModel.Props.C05"], parts,
+        "C05", tier, seed, ["UnifexModel.Props.C05", "UnifexModel.Props.C05_loops"], parts,
         rule="type-directed random sender expressions (size<=12 quick / <=25 thorough, 27 node kinds) with scripted leaves (inline value/error/done, "
              "pending with/without reaction to stop), scripted throwing callables, and external event scripts (start, stop at a random position, "
              "leaf completions in random order); each is run on the REAL library (children erased with any_sender_of<int>, ASan+UBSan build) and on the "
@@ -16,7 +17,7 @@ def run(tier, seed, replay=None):
                      "algorithm set: just just_error just_done then upon_error upon_done let_value let_error let_done sequence finally when_all(2) when_any(2) stop_when "
                      "materialize+dematerialize done_as_optional unstoppable with_query_value let_value_with_stop_source any_sender_of into_variant defer allocate just_from just_void_or_done; others are outside the theorems"],
         trusted_extra=["harness/evt/evt.cpp (builds the real sender tree, canonicalises observations)", "tools/evt.py generator and diff", "g++ 12, ASan/UBSan"],
-        explanation="Theorems (Props/C05): start_refines_evalI — for every expression whose leaves complete inline, start() completes with exactly the denotational "
+        explanation="Looping algorithms outside the calculus (repeat_effect_until, retry_when): Props/C05_loops for every script (repeat_skips_undecided, repeat_predicate_throw_becomes_error, retry_skips_retried_attempts, retry_reconnect_throw_becomes_error, ...), tied by scripted runs of the real algorithms (loopprobe.cpp). Theorems (Props/C05): start_refines_evalI — for every expression whose leaves complete inline, start() completes with exactly the denotational "
                     "spec evalI (Calc/Spec.lean), for all environments and callables; per-algorithm laws for deferred completion (unary_signals_map, "
                     "successor_not_started_while_first_runs, short_circuit, finally_rules, when_all_result_rules, when_all_first_failure_wins, stop_when_source_result, "
                     "then/upon_* channel laws, throw_becomes_set_error). Tie: full-trace equality of the real library and Calc.deliver on generated cases; a differing ROOT OUTCOME "
